@@ -189,7 +189,9 @@ func main() {
 		}
 	}
 	for _, d := range textgen.PrecedenceEnums(0) {
-		jobs = append(jobs, job{[]*textgen.Def{d}, textgen.Layouts[0], "precedence"})
+		for _, l := range textgen.Layouts {
+			jobs = append(jobs, job{[]*textgen.Def{d}, l, "precedence"})
+		}
 	}
 	// 2. context independence: all sequences of length 2 (quick) and 3 (thorough) in the canonical layout,
 	//    and all sequences of length 2 in every layout (layout invariance on non-initial parser states)
